@@ -1,10 +1,9 @@
 /-
 C10 — Session windows split a key's events at gaps above the timeout, each event once.
 Property theorems only (helper lemmas: `Proofs/Session*.lean`).  Quantified over every timeout,
-MAXOUTOFORDERNESS, key set and op sequence (all arrival orders and all placements of the expiry
-pass relative to the Adds).  The gap clause holds only under hypothesis `H` (no on-time row
-arrives out of order across a gap of its key); its full statement is kept visible, with a proved
-negation witness — that class is the recorded finding.
+MAXOUTOFORDERNESS, key set and op sequence: all arrival orders (in order, out of order within the
+tolerance, bridging events that merge two sessions) and all placements of the expiry pass relative
+to the Adds.
 -/
 import SsqlVerif.Proofs.SessionRun
 set_option autoImplicit false
@@ -15,11 +14,11 @@ open Tumbling (leOpt)
 
 /-- **Each accepted event exactly once (counting form).** Rows in open sessions plus rows in
 delivered sessions equal the rows accepted on time — nothing lost, nothing duplicated, whatever
-the schedule of expiry passes. -/
-theorem each_once_counting (timeout ooo : Int) (ht : 0 < timeout) (ops : List Op) (x : Row) :
+the schedule of expiry passes and whatever sessions were merged on the way. -/
+theorem each_once_counting (timeout ooo : Int) (ops : List Op) (x : Row) :
     (openRows (run (init timeout ooo 0) ops).1).count x + (firstRows (run (init timeout ooo 0) ops).2).count x
       = (acceptedRows (init timeout ooo 0) ops).count x := by
-  have := run_conserve (init timeout ooo 0) ops x (inv_init timeout ooo 0 ht)
+  have := run_conserve (init timeout ooo 0) ops x
   simpa [init, openRows] using this
 
 /-- **window_start / window_end.** A delivered session is non-empty, starts at its earliest row and
@@ -36,50 +35,38 @@ theorem no_early_delivery (timeout ooo lateness : Int) (ht : 0 < timeout) (ops :
     ∀ e ∈ (run (init timeout ooo lateness) ops).2, e.late = false →
       leOpt e.stop (run (init timeout ooo lateness) ops).1.wm.cur := by
   intro e he hl
-  exact (run_firsts (init timeout ooo lateness) ops (inv_init timeout ooo lateness ht) e he hl).2
+  exact (run_firsts (init timeout ooo lateness) ops (inv_init timeout ooo lateness ht) e he hl).2.2
 
 /-- the gap clause for one delivered session, without sorting: every row but an earliest one has a
 strictly earlier row of the session within the timeout (⇔ consecutive sorted timestamps differ by
 at most the timeout ⇔ two rows further apart with nothing in between are never together) -/
 def GapClause (timeout : Int) (e : Emission) : Prop := Chain timeout e.start e.rows
 
-/-- **Gap clause — full statement** (false of the code as it is, see `gap_splits_fails`). -/
-def gap_splits_full : Prop :=
-  ∀ (timeout ooo : Int), 0 < timeout → ∀ ops : List Op,
-    ∀ e ∈ (run (init timeout ooo 0) ops).2, e.late = false → GapClause timeout e
-
-/-- **Gap clause under H.** If no on-time row arrives out of order across a gap of its key
-(`NoAcrossGapAll`, a decidable condition on the input history), every delivered session satisfies
-the gap clause — for every placement of the expiry passes. -/
-theorem gap_splits_partial (timeout ooo lateness : Int) (ht : 0 < timeout) (ops : List Op)
-    (hH : NoAcrossGapAll (init timeout ooo lateness) ops) :
+/-- **Gap clause.** Every delivered session satisfies it — for every arrival order and every
+placement of the expiry passes. -/
+theorem gap_splits (timeout ooo lateness : Int) (ht : 0 < timeout) (ops : List Op) :
     ∀ e ∈ (run (init timeout ooo lateness) ops).2, e.late = false → GapClause timeout e := by
   intro e he hl
-  exact run_chain (init timeout ooo lateness) ops (inv_init timeout ooo lateness ht)
-    (by intro s hs; cases hs) hH e he hl
+  exact (run_firsts (init timeout ooo lateness) ops (inv_init timeout ooo lateness ht) e he hl).2.1
 
-/-- the witness history: timeout 10, tolerance 100, one key; 100 arrives, then 50 (on time, a full
-timeout or more below the open session's start), flush -/
-def witnessOps : List Op :=
-  [.add ['a'] ⟨1, 100⟩ 1000000, .add ['a'] ⟨2, 50⟩ 1000000, .add ['a'] ⟨3, 5000⟩ 1000000,
-   .deliver, .deliver, .deliver]
+/-- **Open sessions of one key stay a full timeout apart** (so an event never has two sessions to
+choose from, and what is merged is exactly what the event bridges). -/
+theorem open_sessions_apart (timeout ooo lateness : Int) (ht : 0 < timeout) (ops : List Op) :
+    (run (init timeout ooo lateness) ops).1.sessions.Pairwise
+      (fun a b => a.key = b.key → a.stop ≤ b.start ∨ b.stop ≤ a.start) :=
+  (inv_run (init timeout ooo lateness) ops (inv_init timeout ooo lateness ht)).hsep
 
-theorem gap_splits_fails : ¬ gap_splits_full := by
-  intro h
-  have h1 := h 10 100 (by decide) witnessOps
-    { late := false, key := ['a'], start := 50, stop := 110, rows := [⟨1, 100⟩, ⟨2, 50⟩] } (by decide) rfl
-  have h2 := h1 ⟨1, 100⟩ (by simp)
-  rcases h2 with h2 | ⟨p, hp, hlt, hd⟩
-  · simp at h2
-  · simp only [List.mem_cons, List.mem_nil_iff, or_false] at hp
-    rcases hp with rfl | rfl
-    · simp at hlt
-    · simp at hd
+/-- an on-time event joins every open session of its key it touches, and only those -/
+theorem joins_exactly_the_touched (w : SWin) (k : Key) (r : Row) (now : Int) (t : Sess) (os : List Sess)
+    (h : fate w k r now = .join t os) (s : Sess) :
+    s ∈ t :: os ↔ s ∈ w.sessions ∧ s.key = k ∧ s.start - w.timeout < r.ts ∧ r.ts < s.stop := by
+  rw [← (fate_join_touched w k r now t os h).1, mem_touched]
+  simp only [touches, Bool.and_eq_true, beq_iff_eq, decide_eq_true_eq]
+  constructor
+  · rintro ⟨h1, ⟨h2, h3⟩, h4⟩; exact ⟨h1, h2, h3, h4⟩
+  · rintro ⟨h1, h2, h3, h4⟩; exact ⟨h1, ⟨h2, h3⟩, h4⟩
 
-/-- the witness is outside H, as it must be -/
-example : ¬ NoAcrossGapAll (init 10 100 0) witnessOps := by decide
-
-/-! ### non-vacuity: an in-order history with a gap satisfies H and splits -/
+/-! ### non-vacuity: an in-order gap splits; an out-of-order bridging event merges -/
 def demoOps : List Op :=
   [.add ['a'] ⟨1, 1000⟩ 1000000, .add ['a'] ⟨2, 1005⟩ 1000000, .add ['a'] ⟨3, 1050⟩ 1000000,
    .add ['b'] ⟨4, 9000⟩ 1000000, .deliver, .deliver, .deliver, .deliver]
@@ -87,6 +74,13 @@ def demoOps : List Op :=
 example : ((run (init 10 0 0) demoOps).2.map (fun e => (e.key, e.start, e.stop, e.rows.map (·.id))))
     = [(['a'], 1000, 1015, [1, 2]), (['a'], 1050, 1060, [3])] := by decide
 
-example : NoAcrossGapAll (init 10 0 0) demoOps := by decide
+/-- tolerance 100: 100 and 115 open two sessions of key a, then 108 bridges them into one -/
+def bridgeOps : List Op :=
+  [.add ['a'] ⟨1, 100⟩ 1000000, .add ['a'] ⟨2, 115⟩ 1000000, .add ['a'] ⟨3, 108⟩ 1000000,
+   .add ['a'] ⟨4, 5000⟩ 1000000, .deliver, .deliver, .deliver]
+
+example : (run (init 10 100 0) (bridgeOps.take 2)).1.sessions.length = 2 := by decide
+example : ((run (init 10 100 0) bridgeOps).2.map (fun e => (e.start, e.stop, e.rows.map (·.id))))
+    = [(100, 125, [1, 2, 3])] := by decide
 
 end C10
